@@ -76,7 +76,7 @@ def r1_hull(ctx):
             mask = v[2][0] if okw else None
         okc = oks = None
         if mask is not None:
-            inner, shp = (mask[1][1], mask[2][0]) if mask[0] == "call" and mask[1][0] == "attr" and mask[1][2] == "reshape" and len(mask[2]) == 1 else (mask, None)
+            inner, shp = Q.reshape_of(mask) if Q.reshape_of(mask) is not None else (mask, None)
             if inner[0] == "cmp" and inner[2] == fs[0]:
                 okc = True if (inner[1] == "!=" and inner[3] == const(-1)) or (inner[1] in (">=",) and inner[3] == const(0)) or (inner[1] == ">" and inner[3] == const(-1)) else \
                     (False if is_const(inner[3]) else None)
